@@ -1285,6 +1285,134 @@ def color_inherit(prog: Program) -> RuleResult:
             raise AnalysisError(f"{construct}: `{short(call)}` is not a recognised propagation step")
     return res
 
+
+# ---------------------------------------------------------------------------
+# a node is placed in the species it is mapped to; a label shows the node's own synteny
+
+
+def placed_in_species(prog: Program) -> RuleResult:
+    res = RuleResult(
+        "PLACED-IN-SPECIES",
+        "the branch of an object node is stored in the layout state of the species the node is mapped to, and only "
+        "there: inside the double traversal of _compute_branches every store `<state>['branches'][<gene>] = ...` is "
+        "dominated by the filter `mapping[<gene>] == <species>` (the `!= ... continue` at the top of the gene loop) "
+        "and `<state>` is the object registered as `layout_state[<species>]` for the species of the outer loop; "
+        "a virtual loss node is stored in the state of the species the walk of _add_losses is currently at",
+    )
+    mod = prog.module(LAYOUT)
+    fn = prog.func(LAYOUT, "_compute_branches")
+    sp = _species_loop_var(fn)
+    if sp is None:
+        raise AnalysisError("_compute_branches: species loop not found")
+    maps = _mapping_names(fn)
+    sp_loop = next(l for l in ast.walk(fn) if isinstance(l, ast.For) and dotted(l.target) == sp)
+    gene_loop = next(
+        (l for st in sp_loop.body for l in ast.walk(st) if isinstance(l, ast.For) and isinstance(l.iter, ast.Call) and isinstance(l.iter.func, ast.Attribute) and l.iter.func.attr == "traverse"),
+        None,
+    )
+    if gene_loop is None:
+        raise AnalysisError("_compute_branches: gene loop not found")
+    gene = dotted(gene_loop.target)
+    # the state object of this species
+    state_names = set()
+    for st in sp_loop.body:
+        if isinstance(st, ast.Assign) and isinstance(st.targets[0], ast.Subscript) and dotted(st.targets[0].slice) == sp and isinstance(st.value, ast.Name):
+            state_names.add(st.value.id)
+        if isinstance(st, (ast.Assign, ast.AnnAssign)) and isinstance(getattr(st, "value", None), ast.Subscript) and dotted(st.value.slice) == sp:
+            tgt = st.targets[0] if isinstance(st, ast.Assign) else st.target
+            if isinstance(tgt, ast.Name):
+                state_names.add(tgt.id)
+    construct = f"{LAYOUT}:_compute_branches/filter"
+    first = gene_loop.body[0] if gene_loop.body else None
+    ok_filter = False
+    if isinstance(first, ast.If) and isinstance(first.test, ast.Compare) and len(first.test.ops) == 1 and isinstance(first.test.ops[0], ast.NotEq):
+        sides = {ast.unparse(first.test.left), ast.unparse(first.test.comparators[0])}
+        if sp in sides and any(f"{m}[{gene}]" in sides for m in maps) and any(isinstance(x, ast.Continue) for x in first.body):
+            ok_filter = True
+    if ok_filter:
+        res.ok(construct, f"`{short(first.test)}` -> continue, first statement of the gene loop")
+    else:
+        res.fail(construct, f"the gene loop does not start by skipping the genes that are not mapped to `{sp}`: a node can be placed in a species it is not mapped to (or in several)", mod, gene_loop)
+    stores = [
+        st for st in ast.walk(gene_loop)
+        if isinstance(st, ast.Assign) and isinstance(st.targets[0], ast.Subscript) and isinstance(st.targets[0].value, ast.Subscript)
+        and isinstance(st.targets[0].value.slice, ast.Constant) and st.targets[0].value.slice.value == "branches"
+        and isinstance(st.value, ast.Dict)
+    ]
+    if len(stores) < 4:
+        raise AnalysisError(f"_compute_branches: only {len(stores)} branch stores found")
+    for idx, st in enumerate(stores):
+        construct = f"{LAYOUT}:_compute_branches/store#{idx}"
+        key = dotted(st.targets[0].slice)
+        holder = dotted(st.targets[0].value.value)
+        if key != gene:
+            res.fail(construct, f"`{short(st.targets[0])}` is keyed by `{key}`, not by the gene being visited `{gene}`", mod, st)
+        elif holder not in state_names:
+            res.fail(construct, f"`{short(st.targets[0])}` is stored in `{holder}`, which is not the state registered for `{sp}` ({sorted(state_names)})", mod, st)
+        else:
+            res.ok(construct, f"{holder}['branches'][{gene}] in the state of `{sp}`")
+    # _add_losses: the state is that of the species the walk is at
+    al = prog.func(LAYOUT, "_add_losses")
+    construct = f"{LAYOUT}:_add_losses/state"
+    loop = next((l for l in al.body if isinstance(l, ast.While)), None)
+    if loop is None:
+        raise AnalysisError("_add_losses: loop not found")
+    walker = None
+    if isinstance(loop.test, ast.Compare):
+        walker = dotted(loop.test.left)
+    st_assign = next((st for st in loop.body if isinstance(st, ast.Assign) and isinstance(st.value, ast.Subscript) and dotted(st.value.slice) == walker), None)
+    if st_assign is None:
+        res.fail(construct, f"the state used for a loss node is not `layout_state[{walker}]` of the species the walk is at", mod, loop)
+    else:
+        holder = dotted(st_assign.targets[0])
+        bad = [
+            st for st in ast.walk(loop)
+            if isinstance(st, ast.Assign) and isinstance(st.targets[0], ast.Subscript) and isinstance(st.targets[0].value, ast.Subscript)
+            and dotted(st.targets[0].value.value) not in (holder, None) and isinstance(st.targets[0].value.slice, ast.Constant)
+            and st.targets[0].value.slice.value in ("branches",)
+        ]
+        if bad:
+            res.fail(construct, f"`{short(bad[0].targets[0])}` stores a loss node outside the state of the current species", mod, bad[0])
+        else:
+            res.ok(construct, f"loss nodes go to layout_state[{walker}]")
+    return res
+
+
+def label_source(prog: Program) -> RuleResult:
+    res = RuleResult(
+        "LABEL-SOURCE",
+        "the synteny shown for an object node is that node's own synteny: the text given to format_synteny in "
+        "_compute_branches is built from `syntenies[<gene>]` for the gene being visited (escaped element-wise), with "
+        "the label width of the drawing parameters",
+    )
+    mod = prog.module(LAYOUT)
+    fn = prog.func(LAYOUT, "_compute_branches")
+    sp = _species_loop_var(fn)
+    gene = None
+    for node in ast.walk(fn):
+        if isinstance(node, ast.For) and isinstance(node.target, ast.Name) and node.target.id != sp and isinstance(node.iter, ast.Call) and isinstance(node.iter.func, ast.Attribute) and node.iter.func.attr == "traverse":
+            if any(isinstance(x, ast.Dict) for st in node.body for x in ast.walk(st)):
+                gene = node.target.id
+    calls = [c for c in walk_no_nested(fn) if isinstance(c, ast.Call) and dotted(c.func) == "format_synteny"]
+    if not calls or gene is None:
+        raise AnalysisError("_compute_branches: format_synteny call / gene loop not found")
+    syn_map = {
+        t.id for node in walk_no_nested(fn) if isinstance(node, ast.Assign)
+        and any(isinstance(x, ast.Attribute) and x.attr == "syntenies" for x in ast.walk(node.value))
+        for t in node.targets if isinstance(t, ast.Name)
+    }
+    for idx, call in enumerate(calls):
+        construct = f"{LAYOUT}:_compute_branches/label#{idx}"
+        arg = call.args[0] if call.args else None
+        reads = [x for x in ast.walk(arg) if isinstance(x, ast.Subscript) and (dotted(x.value) in syn_map or (dotted(x.value) or "").endswith(".syntenies"))] if arg is not None else []
+        if len(reads) != 1:
+            res.fail(construct, f"the label text `{short(arg, 60)}` is not built from one read of the synteny mapping", mod, call)
+        elif dotted(reads[0].slice) != gene:
+            res.fail(construct, f"the label of `{gene}` is built from `{short(reads[0])}`: another node's synteny", mod, call)
+        else:
+            res.ok(construct, f"label of `{gene}` = format_synteny({short(arg, 50)}, ...)")
+    return res
+
 # ---------------------------------------------------------------------------
 # escaping
 
@@ -1608,6 +1736,8 @@ def _dominated_by_assignment(loop: ast.For, use: ast.AST, name: str) -> bool:
 
 
 RULES = {
+    "PLACED-IN-SPECIES": placed_in_species,
+    "LABEL-SOURCE": label_source,
     "LOSS-CHAIN": loss_chain,
     "COLOR-INHERIT": color_inherit,
     "COLOR-SOURCE": color_source,
